@@ -1250,6 +1250,11 @@ class CONSEngine(Engine):
                 rest = [r["offset"] for r in self._records() if r["offset"] >= (run["pos"] if run["pos"] is not None else pos)]
                 bad = [i for i in self.invocations if i.run is run and i.state == "failed"]
                 if rest and not bad and not run.get("oor_evseq") and self.config["max_buffer"] is None:
+                    prev = self.runs[-2] if len(self.runs) > 1 else None
+                    if prev is not None and prev["inc"] == run["inc"] and not run["delivered"]:
+                        # C13: "a stopped consumer can be started again" - and then consumes
+                        self.note("C13.restartable", "C13.restarted-consumer-does-not-consume", "run #%d is a restart of the consumer stopped in run #%d (%s); faults ceased %.0f virtual seconds ago, the log holds %r from its start position on, but nothing was ever delivered" % (
+                            run["no"], prev["no"], "after shutdown()" if prev.get("shutdown_watch") is not None else "after stop()", 20.0 + 4 * self.timeout, rest[:4]))
                     self.note("C02.completeness", "C02.not-delivered-after-faults-ceased", "run #%d: faults ceased %.0f virtual seconds ago, the processor succeeds, yet log records %r were not delivered" % (run["no"], 20.0 + 4 * self.timeout, rest[:5]))
                 elif not rest and self.faults:
                     self.nt.add("recovered-after-faults")
